@@ -25,17 +25,16 @@ def main():
 
 
 def order_from_table(table, d, names):
+    """table: {directory path suffix: [names in the order to return]} (names not listed keep sorted order, last)"""
     import os
     key = None
     for k in table:
-        if os.path.abspath(d).endswith(k) or k == "*":
+        if os.path.abspath(d).endswith("/" + k) or k == "*":
             key = k
     if key is None:
         return names
     perm = table[key]
-    if len(perm) != len(names):
-        return names
-    return [names[i] for i in perm]
+    return [n for n in perm if n in names] + [n for n in names if n not in perm]
 
 
 if __name__ == "__main__":
